@@ -109,21 +109,35 @@ class ExprMixin:
             return False
         return True
 
-    def spec_eval(self, src: str, st: State, extra: dict | None = None) -> V:
-        """Evaluate a contract expression (string) in spec mode."""
+    def spec_eval_full(self, src: str, st: State, extra: dict | None = None):
+        """Evaluate a contract expression in spec mode.  Returns (value, definitional axioms introduced)."""
         node = ast.parse(src.strip(), mode="eval").body
         if extra:
             st = st.fork()
             st.frame.locals.update(extra)
+        n0 = len(st.pc)
         self.spec += 1
         try:
-            _, v = self.ev1(node, st)
+            st2, v = self.ev1(node, st)
         finally:
             self.spec -= 1
+        return v, list(st2.pc[n0:])
+
+    def spec_eval(self, src: str, st: State, extra: dict | None = None) -> V:
+        v, ax = self.spec_eval_full(src, st, extra)
+        if ax:
+            raise EngineError(f"spec expression {src!r} needs definitional axioms where a plain value is expected")
         return v
 
     def spec_bool(self, src, st, extra=None):
-        return truth(self.spec_eval(src, st, extra))
+        """Formula to ASSUME: definitions and the clause."""
+        v, ax = self.spec_eval_full(src, st, extra)
+        return z3.And(*ax, truth(v)) if ax else truth(v)
+
+    def spec_goal(self, src, st, extra=None):
+        """Formula to PROVE: the clause under its definitions (which only name fresh constants)."""
+        v, ax = self.spec_eval_full(src, st, extra)
+        return z3.Implies(z3.And(*ax), truth(v)) if ax else truth(v)
 
     # ------------------------------------------------------------------ literals and names
     def ev_Constant(self, e, st):
@@ -328,6 +342,9 @@ class ExprMixin:
                     return
             raise EngineError(f"{t.cls} has no field/method {attr!r} (line {getattr(node, 'lineno', '?')}: "
                               f"{ast.unparse(node)})")
+        if isinstance(t, TTuple) and t.names and attr in t.names:
+            yield st, tuple_items(base)[t.names.index(attr)]
+            return
         if isinstance(t, TEnum) and attr in ("value", "name"):
             yield st, V(INT, [base.z]) if attr == "value" else fresh(STR, "ename")
             return
